@@ -97,8 +97,8 @@ ASSUMPTIONS = ['frequencies and targets are finite, positive real ndarrays (a si
                '(default padding) of its own record with the band of the last generation in its lineage',
                'after a call raised, the object must be as it was at entry (caches filled lazily apart); a shallow copy shares the value '
                'buffer with its original by definition and is followed only by value mutators that rebind (reset_values)',
-               'PENDING (reported, undecided): gen_smooth_fa_spectrum(smooth_fa_freqs=<list>) raises TypeError after it has stored the '
-               'list; that one mechanism is counted under "pending-finding: ..." and the driver restores the previous targets',
+               'gen_smooth_fa_spectrum(smooth_fa_freqs=<list or tuple>) is in domain (the setters and the constructor accept sequences): '
+               'before fix F43 it raised TypeError after storing the list and kept serving the old spectrum (found by this monitor)',
                'oracle vf/oracles/konno.py is correct (math.log10/sin scalar loop, fsum)']
 RTOL = 1e-9
 RTOL_F32 = 2e-4
@@ -688,12 +688,9 @@ def _onex_gen_smooth(args, kwargs, exc, pre):
     at = 'Signal.gen_smooth_fa_spectrum(raised %s)' % type(exc).__name__
     raw = _raw_sig(st, None, how='gen_arg-refused')
     bad = _refused_state(ctx, at, self, st, raw, exc, False)
-    if given is not None and self._smooth_fa_freqs is given and not isinstance(given, np.ndarray) \
-            and bad == ['smoothing frequencies'] and isinstance(exc, TypeError):
-        # mechanism observed on the unchanged tree: the argument is stored before it is validated. Reported; undecided.
-        ctx.observe(PENDING_REFUSED)
-        _TAINT[self] = st['tg']
-        return
+    # (the one mechanism that fired on the tree before fix F43 - a list of targets stored before it was used, TypeError, old
+    # spectrum still served - was routed to an observation here until it was ruled a genuine defect and repaired in eqsig;
+    # nothing is routed any more)
     ctx.check(not bad, 'refused-call.object-as-it-was', lambda: _wit(at, raw, changed=bad, exception=repr(exc)),
               '%s and left %s of the object changed' % (at, bad))
 
